@@ -70,4 +70,19 @@ def index {α : Type} (xs : List α) (i : Nat) : Except ErrKind α :=
 /-- `range(n)` as the list a `for` loop runs over: empty for `n ≤ 0` -/
 def pyRange (n : Int) : List Nat := List.range n.toNat
 
+/-- read of an attribute that is either absent (`AttributeError`) or holds a value -/
+def slotGet {α : Type} : Option α → Except ErrKind α
+  | Option.none => .error .other
+  | some a => .ok a
+
+/-- `d.get(k, default)` on an insertion-ordered dict (association list) -/
+def adGet {κ ν : Type} [BEq κ] : List (κ × ν) → κ → ν → ν
+  | [], _, d => d
+  | (k', v) :: r, k, d => if k' == k then v else adGet r k d
+
+/-- `d[k] = v`: an existing key keeps its place, a new key goes to the end -/
+def adSet {κ ν : Type} [BEq κ] : List (κ × ν) → κ → ν → List (κ × ν)
+  | [], k, v => [(k, v)]
+  | (k', v') :: r, k, v => if k' == k then (k', v) :: r else (k', v') :: adSet r k v
+
 end Barril.PyRt
